@@ -50,6 +50,8 @@ class C11(SCheck):
             kernel["fiemap_split"] = r.choice([4096, 8192])
         if r.random() < 0.3:
             kernel["fiemap_round_eof"] = True
+        if r.random() < 0.3:
+            kernel["fiemap_flagbits"] = r.choice(gen.FIEMAP_FLAGBITS)
         flags = {}
         if r.random() < 0.2:
             flags["no_progress"] = True
